@@ -34,10 +34,12 @@ Notation rolemap := (gmap (list N) bool).      (* role key |-> Internal *)
 
 Record rst := RSt { r_ont : ost; r_pols : polmap; r_roles : rolemap }.
 
-(* which repair the tree carries: f12 = role.Delete also deletes the role's ontology resource *)
-Record rcfg := RCfg { rc_ont : cfg; f12 : bool }.
-Definition rpinned : rcfg := RCfg fixed false.
-Definition rfixed : rcfg := RCfg fixed true.
+(* which repairs the tree carries:
+   f12 = role.Delete also deletes the role's ontology resource (pinned: table row only)
+   f21 = policy.Delete also deletes the policies' ontology resources (pinned: table rows only) *)
+Record rcfg := RCfg { rc_ont : cfg; f12 : bool; f21 : bool }.
+Definition rpinned : rcfg := RCfg fixed false false.
+Definition rfixed : rcfg := RCfg fixed true true.
 
 (* ---- enforcement ---- *)
 (* ID.IsType *)
@@ -144,8 +146,13 @@ Definition create_policy (st : rst) (k : str) (p : policy) (allow : bool) : rst 
   let st1 := RSt (r_ont st) (<[k := p]> (r_pols st)) (r_roles st) in
   with_ont st1 (define_resource (r_ont st1) (policy_id k)).
 
-Definition delete_policies (st : rst) (ks : list str) : rst * err :=
-  (RSt (r_ont st) (foldr delete (r_pols st) ks) (r_roles st), EOk).
+(* DeleteManyResources: incoming and outgoing relationships of every id, then the resources *)
+Definition delete_resources (o : ost) (ids : list id) : ost :=
+  fold_left (fun o i => (delete_resource o i).1) ids o.
+
+Definition delete_policies (c : rcfg) (st : rst) (ks : list str) : rst * err :=
+  (RSt (if f21 c then delete_resources (r_ont st) (policy_id <$> ks) else r_ont st)
+       (foldr delete (r_pols st) ks) (r_roles st), EOk).
 
 Fixpoint set_on_role (c : rcfg) (st : rst) (r : str) (ps : list str) : rst * err :=
   match ps with
@@ -184,15 +191,12 @@ Definition rset_cur (s : rsys) (st : rst) : rsys :=
   | None => RSys st None
   end.
 
-Definition verdict_err (v : verdict) : err + unit :=
-  match v with Allow => inl EOk | Deny => inr tt | Fail e => inl e end.
-
 Definition rapply (c : rcfg) (st : rst) (o : rop) : rst * err :=
   match o with
   | RCreateRole k i a => create_role c st k i a
   | RDeleteRole k a => delete_role c st k a
   | RCreatePolicy k p a => create_policy st k p a
-  | RDeletePolicies ks => delete_policies st ks
+  | RDeletePolicies ks => delete_policies c st ks
   | RSetOnRole r ps => set_on_role c st r ps
   | RAssign s r => assign_role c st s r
   | RUnassign s r => unassign_role st s r
